@@ -129,7 +129,9 @@ def oracle(toks, line):
             if not fits(guest(ltn), v):
                 return line == "abort"
             return line == f"ok {tyname(lt)} {v} {tyname(lt)} {v}"
-        return line == f"ok {tyname(r)} {v} {tyname(r)} {v}"
+        # a tainted left operand in application memory: the plain compound operator stores the result converted to L (it wraps,
+        # it never aborts) and the expression has type L
+        return line == f"ok {tyname(lt)} {cast(lt, v)} {tyname(lt)} {cast(lt, v)}"
     if c == "incdec":
         form = toks[1]
         lw, ltn = toks[2].split(":")
@@ -147,8 +149,9 @@ def oracle(toks, line):
             if not fits(guest(ltn), v):
                 return line == "abort"
             return line == f"ok {tyname(lt)} {v} {tyname(lt)} {v}"
+        v = cast(lt, v)          # (identity whenever L is its own promoted type; a narrower L wraps like the plain operator)
         e = a if form.startswith("post") else v
-        return line == f"ok {tyname(r)} {e} {tyname(r)} {v}"
+        return line == f"ok {tyname(lt)} {e} {tyname(lt)} {v}"
     return None
 
 
